@@ -15,6 +15,11 @@ MANIFEST = {
             "satisfies |rho|<1 (passivity of every exact solution); at the Bragg frequency (sigma=0) R=cosh u, S=j sinh u, "
             "u=kappa0*int_z^{1/2} p solves the system and, by ODE uniqueness (Gronwall, proved), every solution has "
             "|rho(-1/2)|^2 = tanh^2(kappa0*int p), with the integrals of the uniform/parabolic/rcos profiles evaluated (1, 2/3, 1/2); "
+            "for the uniform profile without chirp the model's sigma(z), kappa(z) are the constants d=delta+s and k, the closed forms "
+            "R=cosh(g(b-z))-j(d/g)sinh(g(b-z)), S=j(k/g)sinh(g(b-z)) (and their cos/sin and band-edge counterparts) solve the system, "
+            "so EVERY exact solution has |rho|^2 = sinh^2 g/(cosh^2 g - d^2/k^2), g=sqrt(k^2-d^2), inside the stop band, "
+            "sin^2 q/(d^2/k^2 - cos^2 q) = k^2 sin^2 q/(q^2+k^2 sin^2 q), q=sqrt(d^2-k^2), outside it, k^2/(1+k^2) at the band edge, "
+            "reducing to tanh^2 k at d=0; "
             "the six (fc|landa_D) x (kL|L|N) routes for a given vdneff resolve to the same design, the dneff routes likewise, "
             "resolved kL and centre frequency equal the requested ones; resolve raises ValueError exactly on the incomplete "
             "specifications; the output spectrum is the input spectrum times ifftshift(H) bin by bin and, if |H_k|<=1, the output "
@@ -41,9 +46,10 @@ RULE = ("cases = designs (14 resolution branches: fc|landa_D x dneff|vdneff|kL-o
         "specifications; out-of-band centre; histories: the same grating and input length under 3-4 sampling rates in sequence "
         "inside one process (and two gratings recurring across cases at different rates), each step checked against the uniform "
         "closed form for the rate in force. non-trivial = a design that ran; distinct by all parameters")
-PARTIAL = ["accuracy of RK45 (solve_ivp, rtol=1e-3): |H|<=1+5e-3 at every bin, Bragg reflectivity = tanh^2(kL*integral p), uniform "
-           "spectrum = sinh^2 g/(cosh^2 g - d^2/k^2) within 1e-2 — oracle on the real code, not theorems (the theorems speak about "
-           "exact solutions of the same right-hand side)",
+PARTIAL = ["accuracy of RK45 (solve_ivp, rtol=1e-3) ONLY: that the numbers FBG returns are within the solver's accuracy of the exact "
+           "solution, for which passivity, the tanh^2 Bragg value and the whole uniform spectrum (stop band, pass band, band edge) "
+           "ARE theorems; checked by the oracle on the real code: |H|<=1+5e-3 at every bin, Bragg reflectivity and uniform spectrum "
+           "within 1e-2",
            "the integral of the gaussian profile has no elementary closed form: the tanh^2 theorem is stated with an antiderivative; "
            "the oracle integrates numerically",
            "tau_g (np.unwrap/np.angle/np.diff) and dispersion are parameters: the returned tau array is spied and fed to the model",
